@@ -37,7 +37,12 @@ func (db *DB) SetMode(m mode.Mode) error {
 	}
 
 	if err != nil {
-		return fmt.Errorf("can't set metabase mode (old=%s, new=%s): %w", db.mode, m, err)
+		err = fmt.Errorf("can't set metabase mode (old=%s, new=%s): %w", db.mode, m, err)
+		// the database is closed now; do not keep a mode that promises a working one
+		// (every transaction would dereference nil and the same SetMode would be a no-op)
+		db.boltDB = nil
+		db.mode = mode.DegradedReadOnly
+		return err
 	}
 
 	db.mode = m
